@@ -176,7 +176,7 @@ Qed.
 Theorem c_encodebits_spec : forall b n v, wok b -> 0 <= n <= 32 -> 0 <= v < 2 ^ n ->
   wok (c_encodebits b n v) /\ wbits (c_encodebits b n v) = wbits b ++ bits_of (Z.to_nat n) v.
 Proof.
-  intros b n v Hok Hn Hv. unfold c_encodebits.
+  intros b n v Hok Hn Hv. unfold c_encodebits, c_enc_tail.
   pose proof (enc_loop_spec 10 b n n v Hok ltac:(lia) ltac:(lia) Hv) as L.
   rewrite Z.sub_diag, Z.pow_0_r, Z.mod_1_r in L. rewrite (Z.div_small v (2 ^ n)) in L by lia.
   specialize (L eq_refl ltac:(lia)).
